@@ -67,3 +67,22 @@ Definition result_ok (g : wgraph) (s : nat) (target : option nat) (cutoff : opti
   | None => forall v x, is_dist g s v x -> within cutoff x -> In v (map fst r)
   | Some t => forall x, is_dist g s t x -> within cutoff x -> In t (map fst r)
   end.
+
+(* [result_ok] without the clause "the path list enumerates ALL shortest paths, each once" *)
+Definition entry_sound (g : wgraph) (s : nat) (cutoff : option Q) (first_only with_paths : bool)
+           (e : nat * (Z * list (list nat))) : Prop :=
+  let '(v, (x, ps)) := e in
+  is_dist g s v x /\ within cutoff x /\
+  (with_paths = false -> ps = []) /\
+  (with_paths = true ->
+     (forall p, In p ps -> SP g s v p) /\
+     (first_only = true -> length ps = 1%nat)).
+
+Definition result_sound (g : wgraph) (s : nat) (target : option nat) (cutoff : option Q)
+           (first_only with_paths : bool) (r : list (nat * (Z * list (list nat)))) : Prop :=
+  NoDup (map fst r) /\
+  (forall e, In e r -> entry_sound g s cutoff first_only with_paths e) /\
+  match target with
+  | None => forall v x, is_dist g s v x -> within cutoff x -> In v (map fst r)
+  | Some t => forall x, is_dist g s t x -> within cutoff x -> In t (map fst r)
+  end.
